@@ -4,6 +4,8 @@ import (
 	"encoding/json"
 	"fmt"
 	"os"
+	"path/filepath"
+	"runtime"
 	"sort"
 	"strings"
 
@@ -200,7 +202,7 @@ func runProperty(p *Program, prop *Property, known []KnownFinding, tier string) 
 			defer func() {
 				if rec := recover(); rec != nil {
 					c.Obls = append(c.Obls, &Obligation{Rule: r.ID, Key: r.ID + "@checker#panic", Site: "-",
-						Statement: r.Statement, Verdict: Undecided, Detail: fmt.Sprintf("reason=checker-panic: %v", rec), NonTriv: true})
+						Statement: r.Statement, Verdict: Undecided, Detail: fmt.Sprintf("reason=checker-panic: %v at %s", rec, panicSite()), NonTriv: true})
 				}
 			}()
 			r.Run(c)
@@ -343,4 +345,22 @@ func sortedPropIDs() []string {
 	}
 	sort.Strings(ids)
 	return ids
+}
+
+// panicSite names the first checker frames below the runtime's panic machinery (diagnostics only).
+func panicSite() string {
+	pcs := make([]uintptr, 32)
+	n := runtime.Callers(3, pcs)
+	frames := runtime.CallersFrames(pcs[:n])
+	var out []string
+	for {
+		f, more := frames.Next()
+		if strings.HasPrefix(f.Function, "main.") && !strings.Contains(f.Function, "panicSite") {
+			out = append(out, fmt.Sprintf("%s (%s:%d)", strings.TrimPrefix(f.Function, "main."), filepath.Base(f.File), f.Line))
+		}
+		if !more || len(out) >= 4 {
+			break
+		}
+	}
+	return strings.Join(out, " <- ")
 }
